@@ -67,7 +67,7 @@ func genC05(t *rapid.T) c5Case {
 	names := rapid.SampledFrom([][]string{{"g"}, {"g", "gen"}, {"deep", "a"}, {"x1"}, {"doc", "ab"}}).Draw(t, "gens")
 	for _, n := range names {
 		g := c5Gen{Name: n, Mode: rapid.SampledFrom([]string{"fixed", "new"}).Draw(t, "mode")}
-		for _, st := range []string{"counter", "helper", "refs", "docecho", "memo", "rotrefs", "docforeign", "sharedexpose", "modref"} {
+		for _, st := range []string{"counter", "helper", "refs", "docecho", "memo", "rotrefs", "docforeign", "sharedexpose", "modref", "locate"} {
 			if rapid.Bool().Draw(t, "state-"+st) {
 				g.State = append(g.State, st)
 			}
@@ -225,6 +225,8 @@ func (g c5Gen) script(c *c5Case) *script.Script {
 			pieces = append(pieces, script.Piece{Kind: "t", Text: "\nvar _$G_$T_mode = 0644\n\nvar _$G_$T_std @R0\n\nvar _$G_$T_local @R1\n", Refs: []string{"errors.New", g.FmtLocal}})
 		case "docforeign":
 			pieces = append([]script.Piece{{Kind: "docforeign"}}, pieces...)
+		case "locate":
+			pieces = append(pieces, script.Piece{Kind: "locate"})
 		}
 	}
 	s.Default = script.Action{Render: pieces}
